@@ -116,7 +116,8 @@ def shards(tier, seed):
 
 def _bounds(ctx):
     ctx.bounds.update({
-        "n_taxa_max": 4, "n_markers": R.NMARK, "traits": [1, 2], "nenv": [1, 2, 3], "nrep_max_per_env": 3,
+        "n_taxa_max": 4, "n_markers": R.NMARK, "ploidy": "2 everywhere; 1, 2, 4 in the zero-noise, heritability and TruePhenotyping layers",
+        "protocol_copies": list(R.COPY_VARIANTS), "traits": [1, 2], "nenv": [1, 2, 3], "nrep_max_per_env": 3,
         "variance_levels": list(R.VAR_LEVELS), "heritability_targets": [0.2, 0.5, 1.0],
         "table_rows_all_orders_max": 6, "table_rows_max": 8, "genotype_taxa_max": 5,
         "table_row_index_variants": list(R.INDEX_VARIANTS),
@@ -170,6 +171,10 @@ def _shard_p1(ctx, n, lv, mi, nenv_only):
                                 form=idx % 4, tag=tv, rng="rs" if idx % 3 == 0 else "gen", calls=2 if two else 1,
                                 seed=ctx.seed)
                     run_trial(ctx, case)
+                    # the same trial on each kind of protocol copy, for layouts whose nrep differs from nenv
+                    if any(r != nenv for r in nrep_list) and (ci + ei + nenv) % (3 if T else 9) == 0:
+                        for how in (R.COPY_VARIANTS if (T or t == 1) else (R.COPY_VARIANTS[idx % 4], R.COPY_VARIANTS[(idx + 1) % 4])):
+                            run_trial(ctx, dict(case, copy=how))
 
 
 def _shard_p2(ctx, n):
@@ -183,10 +188,14 @@ def _shard_p2(ctx, n):
                         for form in ((0, 1, 2, 3) if T else (idx % 4,)):
                             idx += 1
                             case = dict(layer="P2", n=n, labvar=lv, model=[kind, t, named], nenv=nenv, nrep=nrep,
-                                        var=[[0.0] * t] * 3, form=form, tag=0, rng=rng, calls=1, seed=ctx.seed)
+                                        var=[[0.0] * t] * 3, form=form, tag=0, rng=rng, calls=1, ploidy=(2, 1, 4)[idx % 3],
+                                        seed=ctx.seed)
                             run_trial(ctx, case)
-            case = dict(layer="TP", n=n, labvar=lv, model=[kind, t, named], seed=ctx.seed)
-            run_truepheno(ctx, case)
+            for ploidy in (2, 1, 4):
+                case = dict(layer="TP", n=n, labvar=lv, model=[kind, t, named], ploidy=ploidy, seed=ctx.seed)
+                run_truepheno(ctx, case)
+                for how in R.COPY_VARIANTS:
+                    run_truepheno(ctx, dict(case, copy=how))
 
 
 def _targets(t, seed):
@@ -201,9 +210,12 @@ def _shard_p3(ctx, n, method):
     T = ctx.tier == "thorough"
     idx = 0
     for lv in R.LABVARS:
+      for ploidy in (2, 1, 4):
         for mi, (kind, t, named) in enumerate(R.MODELS):
             for target in _targets(t, ctx.seed):
-                for prior in ((None, 4.0) if T else (None,)):
+                if ploidy != 2 and not T and target not in (0.2, 0.5, 1.0, [0.2, 0.5], [0.2], [1.0, 0.2]):
+                    continue
+                for prior in ((None, 4.0) if (T and ploidy == 2) else (None,)):
                     lay = [(2, [1, 2]), (1, 2), (3, [2, 1, 1]), (2, 1)]
                     vmenu = [(1.0, 4.0), (0.0, 0.0), (4.0, 0.0), (0.0, 1.0)]
                     for k in (range(4) if T else (idx % 4,)):
@@ -212,8 +224,10 @@ def _shard_p3(ctx, n, method):
                         ve, vr = vmenu[(k + idx) % 4]
                         case = dict(layer="P3", n=n, labvar=lv, model=[kind, t, named], method=method, target=target,
                                     prior=prior, nenv=nenv, nrep=nrep, var=[[ve] * t, [vr] * t, None], form=idx % 4,
-                                    tag=idx % 3, rng="gen" if idx % 2 else "rs", calls=1, seed=ctx.seed)
+                                    tag=idx % 3, rng="gen" if idx % 2 else "rs", calls=1, ploidy=ploidy, seed=ctx.seed)
                         run_trial(ctx, case)
+                        if idx % 7 == 0:      # heritability set on the original, trial run on a copy
+                            run_trial(ctx, dict(case, copy=R.COPY_VARIANTS[(idx // 7) % 4]))
 
 
 def _mk_rng(kind, handler, seed):
@@ -233,7 +247,7 @@ def run_trial(ctx, case):
     from pybrops.breed.prot.pt.G_E_Phenotyping import G_E_Phenotyping
     seed = case["seed"]
     kind, t, named = case["model"]
-    pop = R.Pop(case["n"], case["labvar"], seed)
+    pop = R.Pop(case["n"], case["labvar"], seed, case.get("ploidy", 2))
     model = R.Model(kind, t, named, seed)
     nrep = case["nrep"]
     nenv = case["nenv"]
@@ -269,19 +283,30 @@ def run_trial(ctx, case):
             oracle_heritability(ctx, case, pt, pg, pop, model, var)
         if var[2] is None:
             return            # heritability undefined for this population (skipped, counted)
+        if case.get("copy"):
+            # the trial is run on a COPY of the configured protocol (the copy shares the generator by design)
+            orig = pt
+            pt = R.make_copy(orig, case["copy"])
+            ctx.transitions += 1
+            require(pt is not orig and type(pt) is type(orig), PT + "copy:type", f"{case['copy']} returned {type(pt).__name__}")
         for call in range(case["calls"]):
             if handler is not None:
                 handler.phase = call
             df = pt.phenotype(pg, miscout={}) if case["form"] == 2 else pt.phenotype(pg)
             ctx.transitions += 1
             box["df"] = df
-            oracle_trial(ctx, df, pop, model, G, nrep_list, var, handler, call)
-            oracle_untouched(pg, pt, pop, nrep_list, var)
+            try:
+                oracle_trial(ctx, df, pop, model, G, nrep_list, var, handler, call)
+                oracle_untouched(pg, pt, pop, nrep_list, var)
+            except Violation as v:
+                if not case.get("copy"):
+                    raise
+                raise Violation(PT + "on-copy:" + v.sig.split(":")[-1], f"protocol obtained by {case['copy']}: {v.detail}", v.case)
 
     ok = ctx.guard(body, case=case, sig_prefix="G_E_Phenotyping:")
     # bookkeeping
     cfg = digest((layer, case["n"], case["labvar"], case["model"], nenv, nrep, case["var"], case.get("method"),
-                  case.get("target")))
+                  case.get("target"), case.get("ploidy", 2), case.get("copy")))
     ctx.state(cfg)
     if "df" in box:
         try:
@@ -300,6 +325,12 @@ def run_trial(ctx, case):
     ctx.flag("nrep:scalar" if isinstance(nrep, int) else ("nrep:array-unequal" if len(set(nrep)) > 1 else "nrep:array"))
     ctx.flag(f"rng:{case['rng']}")
     ctx.flag(f"n:{case['n']}")
+    ctx.flag(f"ploidy:{layer}:{case.get('ploidy', 2)}")
+    if case.get("copy"):
+        ctx.flag(f"copy:GE:{case['copy']}")
+        ctx.count("exec:copy")
+        if any(r != nenv for r in nrep_list):
+            ctx.flag("copy:GE:nrep-differs-from-nenv")
     if scripted:
         ctx.flag(f"tag:{case['tag']}")
     if var[2] is not None:
@@ -342,7 +373,7 @@ def _sample_trial(ctx, case):
 
 
 def oracle_untouched(pg, pt, pop, nrep_list, var):
-    require(pg.mat.tolist() == [pop.ph0, pop.ph1] and
+    require(pg.mat.tolist() == pop.ph and
             (None if pg.taxa is None else pg.taxa.tolist()) == pop.taxa and
             (None if pg.taxa_grp is None else pg.taxa_grp.tolist()) == pop.grp,
             PT + "input-mutated", "phenotype() changed the genotype matrix handed in")
@@ -508,6 +539,7 @@ def oracle_heritability(ctx, case, pt, pg, pop, model, var):
         ctx.flag(f"herit-target:{x:g}")
     if model.kind == "ADL":
         ctx.flag(f"herit:{method}:dominance-model")
+        ctx.flag(f"herit:{method}:dominance-model:ploidy{pop.ploidy}")
     ctx.count(f"heritability-cases:{method}")
     getattr(pt, "set_" + method)(tg, pg)
     ctx.transitions += 1
@@ -567,7 +599,7 @@ def run_truepheno(ctx, case):
     from pybrops.breed.prot.pt.TruePhenotyping import TruePhenotyping
     seed = case["seed"]
     kind, t, named = case["model"]
-    pop = R.Pop(case["n"], case["labvar"], seed)
+    pop = R.Pop(case["n"], case["labvar"], seed, case.get("ploidy", 2))
     model = R.Model(kind, t, named, seed)
     G = [[float(x) for x in row] for row in model.genotypic(pop)]
     ctx.evaluations += 1
@@ -576,13 +608,19 @@ def run_truepheno(ctx, case):
     def body():
         pg = R.build_pgmat(pop)
         tp = TruePhenotyping(model.build())
+        if case.get("copy"):
+            tp = R.make_copy(tp, case["copy"])
+            ctx.transitions += 1
         df = tp.phenotype(pg)
         ctx.transitions += 1
         box["df"] = df
-        oracle_truepheno(df, pop, model, G, tp)
+        oracle_truepheno(df, pop, model, G, tp, P=TPS + ("on-copy:" if case.get("copy") else ""))
 
     ok = ctx.guard(body, case=case, sig_prefix="TruePhenotyping:")
-    ctx.state(digest(("TP", case["n"], case["labvar"], case["model"])))
+    ctx.state(digest(("TP", case["n"], case["labvar"], case["model"], case.get("ploidy", 2), case.get("copy"))))
+    ctx.flag(f"ploidy:TP:{case.get('ploidy', 2)}")
+    if case.get("copy"):
+        ctx.flag(f"copy:TP:{case['copy']}")
     if "df" in box:
         ctx.outcome(digest(box["df"].to_numpy(dtype=object).tolist()))
     if ok:
@@ -1168,6 +1206,9 @@ def finalize(ctx, tier, seed):
     need += [f"index:{v}" for v in R.INDEX_VARIANTS]
     need += [f"history:{p}:{o}" for p in ("GE", "TP") for o in R.OPS_COMMON] + [f"history:GE:{o}" for o in R.OPS_GE]
     need += ["history:GE:two-ops", "history:TP:two-ops"]
+    need += [f"copy:{p}:{h}" for p in ("GE", "TP") for h in R.COPY_VARIANTS] + ["copy:GE:nrep-differs-from-nenv"]
+    need += [f"ploidy:{l}:{k}" for l in ("P2", "P3", "TP") for k in (1, 2, 4)]
+    need += [f"herit:{m}:dominance-model:ploidy{k}" for m in ("h2", "H2") for k in (2, 4)]
     for x in need:
         assert x in f, f"alphabet element never exercised: {x}"
     assert c.get("heritability-cases:h2", 0) > 0 and c.get("heritability-cases:H2", 0) > 0
